@@ -1177,6 +1177,122 @@ def rule_class_state(ctx):
     return r
 
 
+def rule_memo_key(ctx):
+    r = RuleResult('R-memo-key', 'a value stored under a key in a module-level or class-level container (a memo) depends only on parameters that the key '
+                                 'mentions: data dependence through the local definitions and control dependence through the tests that guard them. A memo '
+                                 'keyed too coarsely hands the result of an earlier call with other arguments to a later one')
+    m = ctx.model
+    n_stores = 0
+    n_fn = 0
+    for fi in m.all_functions():
+        if fi.generated:
+            continue
+        n_fn += 1
+        mi = m.modules[fi.module]
+        params = set(fi.value_params())
+        glob_dicts = {k for k, v in mi.assigns.items() if isinstance(v, (ast.Dict, ast.Call)) and not m.modules[fi.module].functions.get(k)}
+        cls_dicts = set()
+        if fi.cls:
+            ci = mi.classes.get(fi.cls)
+            if ci is not None:
+                cls_dicts = {k for k, v in ci.attrs.items() if isinstance(v, ast.Dict)}
+        local_store = {n.id for n in walk_no_nested(fi.node) if isinstance(n, ast.Name) and isinstance(n.ctx, ast.Store)}
+
+        def container(t):
+            """the memo a subscript store goes into, or None"""
+            if not isinstance(t, ast.Subscript):
+                return None
+            b = t.value
+            if isinstance(b, ast.Name) and b.id in glob_dicts and b.id not in local_store and b.id not in fi.params:
+                return b.id
+            if isinstance(b, ast.Attribute) and isinstance(b.value, ast.Name) and b.value.id in ('cls', 'self', fi.cls or '') and b.attr in cls_dicts:
+                return norm(b)
+            return None
+        # definitions and the tests that guard them
+        defs = {}
+
+        def collect(body, guards):
+            for st in body:
+                if isinstance(st, ast.Assign):
+                    for t in st.targets:
+                        for n in ast.walk(t):
+                            if isinstance(n, ast.Name) and isinstance(n.ctx, ast.Store):
+                                defs.setdefault(n.id, []).append((st.value, list(guards)))
+                elif isinstance(st, ast.AugAssign) and isinstance(st.target, ast.Name):
+                    defs.setdefault(st.target.id, []).append((st.value, list(guards)))
+                if isinstance(st, ast.If):
+                    collect(st.body, guards + [st.test])
+                    collect(st.orelse, guards + [st.test])
+                elif isinstance(st, (ast.For, ast.While)):
+                    g2 = guards + ([st.iter] if isinstance(st, ast.For) else [st.test])
+                    if isinstance(st, ast.For):
+                        for n in ast.walk(st.target):
+                            if isinstance(n, ast.Name):
+                                defs.setdefault(n.id, []).append((st.iter, list(guards)))
+                    collect(st.body, g2)
+                    collect(st.orelse, g2)
+                elif isinstance(st, (ast.With, ast.Try)):
+                    collect(st.body, guards)
+                    if isinstance(st, ast.Try):
+                        for h in st.handlers:
+                            collect(h.body, guards)
+                        collect(st.orelse, guards)
+                        collect(st.finalbody, guards)
+        collect(fi.node.body, [])
+
+        def deps(e, seen):
+            out = set()
+            for n in ast.walk(e):
+                if isinstance(n, ast.Name) and isinstance(n.ctx, ast.Load):
+                    if n.id in params:
+                        out.add(n.id)
+                    if n.id in defs and n.id not in seen:
+                        seen.add(n.id)
+                        for v, gs in defs[n.id]:
+                            out |= deps(v, seen)
+                            for g in gs:
+                                out |= deps(g, seen)
+            return out
+
+        def visit(body, guards):
+            nonlocal n_stores
+            for st in body:
+                if isinstance(st, ast.Assign):
+                    for t in st.targets:
+                        c = container(t)
+                        if c is None:
+                            continue
+                        n_stores += 1
+                        # the guard `key not in memo` / `memo.get(key) is None` is about the memo itself, not a dependence of the value
+                        gs = [g for g in guards if c.split('.')[-1] not in {x.id if isinstance(x, ast.Name) else x.attr for x in ast.walk(g) if isinstance(x, (ast.Name, ast.Attribute))}]
+                        vdep = deps(st.value, set())
+                        for g in gs:
+                            vdep |= deps(g, set())
+                        kdep = deps(t.slice, set())
+                        missing = sorted(vdep - kdep - {'cls', 'self'})
+                        if missing:
+                            r.bad(Finding('R-memo-key', _f(fi), '%s[%s]' % (c, norm(t.slice)[:40]), '%s stores `%s` in the memo `%s` under the key `%s`, but the value '
+                                          'also depends on %s: a later call with another %s receives the result of the first' % (
+                                              fi.qualname, norm(st.value)[:50], c, norm(t.slice)[:40], missing, '/'.join(missing)), fi.file, st.lineno))
+                        else:
+                            r.ok(construct='%s:%s' % (_f(fi), c), nontrivial=True, sample='%s: memo `%s[%s]`, value depends on %s' % (fi.qualname, c, norm(t.slice)[:30], sorted(vdep)))
+                if isinstance(st, ast.If):
+                    visit(st.body, guards + [st.test])
+                    visit(st.orelse, guards + [st.test])
+                elif isinstance(st, (ast.For, ast.While, ast.With)):
+                    visit(st.body, guards)
+                elif isinstance(st, ast.Try):
+                    visit(st.body, guards)
+                    for h in st.handlers:
+                        visit(h.body, guards)
+        visit(fi.node.body, [])
+    r.instances += n_fn
+    r.holding += n_fn
+    r.stats = {'functions_scanned': n_fn, 'memo_stores': n_stores}
+    r.floor = 400
+    return r
+
+
 def _short(av):
     s = repr(av)
     return s if len(s) < 80 else s[:77] + '...'
